@@ -149,13 +149,13 @@ theorem transformRules_eq_spec_matchFuel {lits fuel use} (hf : matchFuel use ≤
     unfold matchFuel at hf
     have := matchDatum_eq_spec_of_no_fuel (n := fuel) (d := use) hsp
       (matchDatum_fuel_supported hok (by omega))
-    simp only [transformRules, specTransform, bind, Except.bind]
+    rw [transformRules_cons]
+    simp only [specTransform]
     cases hm : specMatch lits p use with
     | some β =>
       simp only [hm] at this
       rw [this]
-      simp only [if_true, subst_of_match hr hm (show use.size ≤ fuel by omega)]
-      rfl
+      simp only [fill_of_match hr hm (show use.size ≤ fuel by omega)]
     | none =>
       simp only [hm] at this
       obtain ⟨σ', h'⟩ := this
